@@ -134,6 +134,10 @@ def generate(ctx, prop):
     # scripted counterexamples (the adversaries TLC found against the pinned design)
     jobs["scr3"] = gen("Gen_Scripted3", gen_cfg(3, 1, "Corrupt3", "S3", "Both"))
     jobs["scr5"] = gen("Gen_Scripted5", gen_cfg(5, 2, "Corrupt5", "S5", "Both"))
+    # one scenario per decision branch of the resolution / reveal functions (n=5, two
+    # corrupt) and every single deviation (n=3): expected values of the repaired design
+    jobs["br3"] = gen("Gen_Branch3", gen_cfg(3, 1, "Corrupt3any", "Branch3", "OnlyFixed"))
+    jobs["br5"] = gen("Gen_Branch5", gen_cfg(5, 2, "Corrupt5", "B5", "OnlyFixed"))
     if thorough:
         # every behaviour of the deviation classes the defects of the pinned code belong to
         jobs["dir3"] = gen("Gen_Directed3", gen_cfg(3, 1, "Corrupt3", "Directed3", "Both"), timeout=3000)
@@ -179,6 +183,13 @@ def generate(ctx, prop):
             sel += rest if len(rest) <= 1500 else rnd.sample(rest, 1500)
         if any(model_violates(b) for b in fixed.values()):
             ctx.broken("the repaired design violates an invariant on a directed behaviour")
+    for name in ("br3", "br5"):
+        beh = res[name]
+        if len(beh) < 40:
+            ctx.broken("branch coverage generation %s produced only %d behaviours" % (name, len(beh)))
+        if any(model_violates(b) for b in beh):
+            ctx.broken("the repaired design violates an invariant on a branch coverage behaviour")
+        sel += beh
     for n in (3, 4, 5):
         beh = res["sim%d" % n]
         if len(beh) < nsim[n] * 0.5:
